@@ -30,8 +30,59 @@ type World struct {
 	Vals  []*pk.Key // current consensus validators (the harness' own bookkeeping of what it installed)
 	Owner *pk.Key   // default side-chain owner
 
+	// Wallets: validators (by public-key hex) whose pool entry was registered by a separate wallet
+	// account, i.e. PeerPoolItem.Address != address derived from the node key (the normal situation
+	// on a live network). Validators not listed registered themselves.
+	Wallets map[string]*pk.Key
+
 	lastDump  []nat.KV
 	lastNonce uint32
+}
+
+// WalletOf returns the account that owns validator k's pool entry (k itself if self-registered).
+func (w *World) WalletOf(k *pk.Key) *pk.Key {
+	if x := w.Wallets[k.PubHex()]; x != nil {
+		return x
+	}
+	return k
+}
+
+// WalletKeys lists the separate wallet accounts of the current validators (none of them is a
+// consensus validator itself).
+func (w *World) WalletKeys() []*pk.Key {
+	var out []*pk.Key
+	for _, v := range w.Vals {
+		if x := w.Wallets[v.PubHex()]; x != nil {
+			out = append(out, x)
+		}
+	}
+	return out
+}
+
+// NewWorldWallets is NewWorld where validator i's genesis pool entry carries the address of
+// wallets[i] (nil = its own key address) as the registered account.
+func NewWorldWallets(netID uint32, vals, wallets []*pk.Key, owner *pk.Key) (*World, error) {
+	config.EXTRA_INFO_HEIGHT_FORK_CHECK = false
+	e := nat.New(netID)
+	vb := pk.SetConfig(netID, vals)
+	wm := map[string]*pk.Key{}
+	for i, wk := range wallets {
+		if wk != nil && i < len(vals) {
+			vb.Peers[i].Address = wk.Addr.ToBase58()
+			wm[vals[i].PubHex()] = wk
+		}
+	}
+	sink := common.NewZeroCopySink(nil)
+	vb.Serialization(sink)
+	h := e.Height
+	e.Height = 0
+	rec := e.Call(utils.NodeManagerContractAddress, "initConfig", sink.Bytes())
+	e.Height = h
+	if !rec.Ok {
+		return nil, fmt.Errorf("initConfig: %s", rec.Err)
+	}
+	e.Validators = vals
+	return &World{E: e, Vals: append([]*pk.Key{}, vals...), Owner: owner, Wallets: wm}, nil
 }
 
 // NewWorld creates a universe on network id netID whose genesis validators are vals.
@@ -44,7 +95,7 @@ func NewWorld(netID uint32, vals []*pk.Key, owner *pk.Key) (*World, error) {
 	if err := e.InitGovernance(vals); err != nil {
 		return nil, err
 	}
-	return &World{E: e, Vals: append([]*pk.Key{}, vals...), Owner: owner}, nil
+	return &World{E: e, Vals: append([]*pk.Key{}, vals...), Owner: owner, Wallets: map[string]*pk.Key{}}, nil
 }
 
 // ---------------------------------------------------------------------------------------------
@@ -234,8 +285,16 @@ func (w *World) commitAs(operatorOf []*pk.Key) error {
 
 // AddValidator: registerCandidate by k, approveCandidate by the current validators until the
 // candidate is in the pool, commitDpos. Afterwards k is a consensus validator.
-func (w *World) AddValidator(k *pk.Key) error {
-	rec := w.E.Call(utils.NodeManagerContractAddress, node_manager.REGISTER_CANDIDATE, peerArgs(k.PubHex(), k.Addr), pk.Single(k))
+func (w *World) AddValidator(k *pk.Key) error { return w.AddValidatorBy(k, nil) }
+
+// AddValidatorBy is AddValidator with the candidate registered by a separate wallet account
+// (wallet nil = by the node key itself).
+func (w *World) AddValidatorBy(k, wallet *pk.Key) error {
+	reg := k
+	if wallet != nil {
+		reg = wallet
+	}
+	rec := w.E.Call(utils.NodeManagerContractAddress, node_manager.REGISTER_CANDIDATE, peerArgs(k.PubHex(), reg.Addr), pk.Single(reg))
 	if !rec.Ok {
 		return fmt.Errorf("registerCandidate: %s", rec.Err)
 	}
@@ -257,12 +316,18 @@ func (w *World) AddValidator(k *pk.Key) error {
 		return err
 	}
 	w.Vals = append(w.Vals, k)
+	if wallet != nil {
+		w.Wallets[k.PubHex()] = wallet
+	} else {
+		delete(w.Wallets, k.PubHex())
+	}
 	return w.checkVals()
 }
 
 // RemoveValidator: quitNode by k, commitDpos. Needs more than 4 peers.
 func (w *World) RemoveValidator(k *pk.Key) error {
-	rec := w.E.Call(utils.NodeManagerContractAddress, node_manager.QUIT_NODE, peerArgs(k.PubHex(), k.Addr), pk.Single(k))
+	own := w.WalletOf(k)
+	rec := w.E.Call(utils.NodeManagerContractAddress, node_manager.QUIT_NODE, peerArgs(k.PubHex(), own.Addr), pk.Single(own))
 	if !rec.Ok {
 		return fmt.Errorf("quitNode: %s", rec.Err)
 	}
@@ -277,6 +342,7 @@ func (w *World) RemoveValidator(k *pk.Key) error {
 		return err
 	}
 	w.Vals = rest
+	delete(w.Wallets, k.PubHex())
 	return w.checkVals()
 }
 
@@ -518,5 +584,6 @@ func (w *World) Fee(chainID uint64) (uint64, *big.Int) {
 
 // QuitNodeOnly sends quitNode for k without committing the epoch (k becomes "quitting").
 func (w *World) QuitNodeOnly(k *pk.Key) *nat.CallRecord {
-	return w.E.Call(utils.NodeManagerContractAddress, node_manager.QUIT_NODE, peerArgs(k.PubHex(), k.Addr), pk.Single(k))
+	own := w.WalletOf(k)
+	return w.E.Call(utils.NodeManagerContractAddress, node_manager.QUIT_NODE, peerArgs(k.PubHex(), own.Addr), pk.Single(own))
 }
